@@ -138,6 +138,33 @@ NONASCII = ['a/é.txt', 'ü/b.txt', 'a/b.中', 'a/\ud800.txt']
 TRAILING_DOT = ['a/b.c.', 'b.', 'a/b..', 'x/y.z.w.']
 ALPH = 'ab./ A\\~'
 
+# Tree strings of boundary lengths. The directory tree stores the folder path, the file stem and the extension each as one
+# NUL-terminated string of unbounded length; a reader that works on fixed-size blocks (seeded fault c13_4: 256 bytes) cannot read
+# back what the writer accepts. Every position gets lengths around the powers of two a block reader would use, and 1000/5000.
+LONG_LENGTHS = [127, 128, 129, 255, 256, 257, 511, 512, 513, 1000, 1023, 1024, 1025, 4096, 5000]
+LONG_POSITIONS = ['folder', 'nested', 'stem', 'ext']
+
+
+def long_name(pos: str, n: int) -> str:
+    """A file name whose tree string at position `pos` has exactly `n` characters."""
+    if pos == 'folder':
+        return 'F' * n + '/b.txt'
+    if pos == 'nested':     # one stored string: 'sub_00/sub_01/...'
+        path = '/'.join(f'sub_{i:02}' for i in range(n // 7 + 2))[:n]
+        if path.endswith('/'):
+            path = path[:-1] + 'x'
+        return path + '/b.txt'
+    if pos == 'stem':
+        return 'a/' + 's' * n + '.txt'
+    return 'a/b.' + 'e' * n
+
+
+LONG_NAMES = [long_name(p, n) for p in LONG_POSITIONS for n in LONG_LENGTHS]
+
+
+def longest_part(name: str) -> int:
+    return max(len(x) for x in ref_parts(name))
+
 
 def bud(ck: Ck, quick: int, mid: int, thorough: int) -> int:
     """Case budget: quick tier; quick tier after a tie broke (escalated, but kept within the quick wall-time limit); thorough tier."""
@@ -146,8 +173,10 @@ def bud(ck: Ck, quick: int, mid: int, thorough: int) -> int:
 
 def rand_name(rng: random.Random) -> str:
     r = rng.random()
-    if r < 0.75:
+    if r < 0.70:
         return rng.choice(NAME_POOL)
+    if r < 0.75:
+        return long_name(rng.choice(LONG_POSITIONS), rng.choice(LONG_LENGTHS) if rng.random() < 0.8 else rng.randrange(100, 1200))
     s = ''.join(rng.choice(ALPH) for _ in range(rng.choice([1, 2, 3, 4, 6])))
     _, tail = split_path(s)
     if tail.endswith('.'):        # trailing-dot names are a separate (known) class with its own stream
@@ -458,6 +487,12 @@ def check_case(case: dict) -> tuple[str, str, int] | None:
                         f'{op[0]} {op[1]!r} gave code {g["code"]} ({g["err"]}), expected ValueError', i)
             if e['code'] == R_RO:
                 return (f'readonly-accepted:{op[0]}', f'{op} in read mode gave code {g["code"]} ({g["err"]})', i)
+            if op[0] == 'reopen' and g['code'] == R_BADDIR:
+                names = [o[1] for o in case['ops'][:i] if o[0] in ('new', 'add')]
+                ln = max([longest_part(nm) for nm in names] or [0])
+                return ('reopen-rejects-written-directory' + (':long-tree-string' if ln >= 100 else ''),
+                        f'the directory file written by write_dirfile cannot be opened again in mode {op[1]!r}: {g["err"]}'[:300]
+                        + f' (longest folder/stem/extension string in the history: {ln} characters)', i)
             return (f'result-code:{op[0]}:expected{e["code"]}-got{g["code"]}', f'{op}: {g["err"]}', i)
         want = {k: (dg(v), True) for k, v in e['map'].items()}
         if g['obs'] != want:
@@ -494,6 +529,20 @@ def check_case(case: dict) -> tuple[str, str, int] | None:
     return None
 
 
+def shrink_name(nm: str, n: int) -> str | None:
+    """`nm` with its longest run of one character (or, for nested paths, its folder part) cut to n characters."""
+    import itertools
+    head, tail = split_path(nm)
+    if head.count('/') >= 3 and len(head) > n >= 1:
+        h = head[:n]
+        return (h[:-1] + 'x' if h.endswith('/') else h) + '/' + tail
+    runs = [(len(list(g)), ch) for ch, g in itertools.groupby(nm)]
+    ln, ch = max(runs)
+    if ln <= n:
+        return None
+    return nm.replace(ch * ln, ch * n, 1)
+
+
 def shrink_case(case: dict, key: str) -> dict:
     def bad(c):
         r = check_case(c)
@@ -507,6 +556,16 @@ def shrink_case(case: dict, key: str) -> dict:
             if cand['ops'] and bad(cand):
                 cur = cand
                 changed = True
+                break
+    # shrink long names: cut the longest tree string down to the smallest boundary length that still fails
+    for nm in sorted({o[1] for o in cur['ops'] if o[0] in ('new', 'add', 'write', 'del') and len(o[1]) > 40}):
+        for n in (1, 8, 64, 127, 128, 129, 255, 256, 257, 511, 512, 513, 1000, 1023, 1024, 1025):
+            short = shrink_name(nm, n)
+            if short is None or len(short) >= len(nm):
+                continue
+            cand = {'cfg': cur['cfg'], 'ops': [(o[0], short) + tuple(o[2:]) if len(o) > 1 and o[1] == nm else o for o in cur['ops']]}
+            if bad(cand):
+                cur = cand
                 break
     # shrink data sizes
     for i, op in enumerate(cur['ops']):
@@ -546,11 +605,21 @@ CORPUS = [
 ]
 
 
+# every tree-string position at the lengths around 256 and at 1000 (also compared against the model in corr_machine)
+LONG_CORPUS = [{'cfg': {'dir': True, 'limit': 4}, 'ops': [('add', 'k.t', 's', (2, 3), 0), ('add', long_name(p, n), f, (1, 9), 0), ('save',), ('reopen', m)]}
+               for p in LONG_POSITIONS for n, f, m in ((255, 's', 'r'), (256, '2', 'a'), (257, '3', 'r'), (1000, 's', 'a'))]
+
+
 def search(ck: Ck) -> None:
     n_small = bud(ck, 400, 1500, 6000)
     n_big = bud(ck, 14, 40, 300)
     found: dict[str, tuple] = {}
-    cases = list(CORPUS)
+    cases = list(CORPUS) + list(LONG_CORPUS)
+    for j, nm in enumerate(LONG_NAMES):     # every position x every boundary length, alone in an archive and next to another file
+        ops = [('add', nm, 's23'[j % 3], (1, 9), [0, None][j % 2])]
+        if j % 2:
+            ops = [('add', 'k.t', 's', (2, 3), 0)] + ops + [('save',), ('reopen', 'a'), ('write', nm, 's', (3, 20), 1), ('del', 'k.t', 's')]
+        cases.append({'cfg': {'dir': j % 4 != 3, 'limit': [4, None, 0][j % 3]}, 'ops': ops + [('save',), ('reopen', 'ra'[j % 2])]})
     for _ in range(n_small):
         cases.append(gen_case(ck.rng))
     for _ in range(n_big):
@@ -573,6 +642,8 @@ def search(ck: Ck) -> None:
             if op[0] in ('add', 'write') and e['code'] == R_OK:
                 ck.hist('oracle_placement', placement(cfg, op[3][1], op[4]))
                 ck.hist('oracle_name_form', op[2])
+                ln = longest_part(op[1])
+                ck.hist('oracle_longest_tree_string', '<100' if ln < 100 else '100-254' if ln < 255 else str(ln) if ln in (255, 256, 257) else '258-1022' if ln < 1023 else '>=1023')
         if len(sp[-1]['map']) >= 1 and len({o[0] for o in case['ops']}) >= 3:
             ck.seen(('orc', repr(case)))
         r = check_case(case)
@@ -650,7 +721,7 @@ def corr_machine(ck: Ck) -> None:
     byte-exact directory file and archives (length + CRC32)."""
     n_small = bud(ck, 220, 600, 3000)
     n_big = bud(ck, 3, 8, 40)
-    cases = [c for c in CORPUS]
+    cases = [c for c in CORPUS] + list(LONG_CORPUS)
     for _ in range(n_small):
         cases.append(gen_case(ck.rng, small=True))
     for _ in range(n_big):
